@@ -37,13 +37,13 @@ ASSUMPTIONS = [
     "random arrays are compared with their own reference run (root seed is fixed at build time), plus distinctness of blocks",
 ]
 NSHARDS = {"quick": 16, "thorough": 32}
-PER_SHARD = {"quick": 14, "thorough": 300}
+PER_SHARD = {"quick": 14, "thorough": 80}
 
 
 def shards(tier, seed):
     return [
         {"n": PER_SHARD[tier], "maxdim": 7 if tier == "quick" else 10, "depth": 4 if tier == "quick" else 6,
-         "fresh": 1 if tier == "quick" else 6, "randoms": 12 if tier == "quick" else 200, "watchdog_s": TIMEOUT[tier] - 30}
+         "fresh": 1 if tier == "quick" else 6, "randoms": 12 if tier == "quick" else 100, "watchdog_s": TIMEOUT[tier] - 30}
         for _ in range(NSHARDS[tier])
     ]
 
@@ -172,7 +172,8 @@ def check_recipe(recipe, optimize, workdir, rng, res, fresh_budget, only=None):
         res["counters"]["declined"] += 1
         return viols
     ref_snap = read_back(fp)
-    tasks = [t for t in ex0.executed if t[0] != "create-arrays"]
+    # array-creation tasks are retried/backed up like any other task: re-running one must not wipe data
+    tasks = list(dict.fromkeys(ex0.executed))
     res["counters"]["plans"] += 1
     res["counters"]["tasks_in_plans"] += len(ex0.executed)
     ops = gen.recipe_ops(recipe)
@@ -380,10 +381,10 @@ def finalize(tier, merged):
     return {
         "rule": RULE,
         "floors": [
-            ("adversarial schedules executed", c.get("schedules", 0), 3000 if tier == "quick" else 60000),
-            ("stored arrays compared with the reference schedule", c.get("stored_arrays_compared", 0), 6000 if tier == "quick" else 120000),
-            ("tasks executed in a fresh process", c.get("fresh_process_tasks", 0), 30 if tier == "quick" else 600),
-            ("random arrays checked (re-execution + distinct streams)", c.get("random_arrays_checked", 0), 150 if tier == "quick" else 5000),
+            ("adversarial schedules executed", c.get("schedules", 0), 3000 if tier == "quick" else 30000),
+            ("stored arrays compared with the reference schedule", c.get("stored_arrays_compared", 0), 6000 if tier == "quick" else 60000),
+            ("tasks executed in a fresh process", c.get("fresh_process_tasks", 0), 30 if tier == "quick" else 400),
+            ("random arrays checked (re-execution + distinct streams)", c.get("random_arrays_checked", 0), 150 if tier == "quick" else 2500),
         ],
         "assumptions": ASSUMPTIONS,
     }
